@@ -29,7 +29,8 @@ class Clock:
         _time.time, _time.monotonic = self._orig
 
 
-def make_uod(exec_log: list, overlap: bool = True):
+def make_uod(exec_log: list, overlap: bool = True, extra=None):
+    """`extra(builder) -> builder` (optional) adds tags / commands of a particular check; the default UOD is unchanged."""
     from openpectus.lang.exec.tags import Tag
     from openpectus.lang.exec.uod import UodBuilder, UodCommand
 
@@ -60,11 +61,13 @@ def make_uod(exec_log: list, overlap: bool = True):
                                        finalize_fn=lambda cmd: exec_log.append(("final", "CmdNum")))
     if overlap:
         b = b.with_command_overlap(["CmdB", "CmdC"])
+    if extra is not None:
+        b = extra(b)
     return b.build()
 
 
 class EngineRun:
-    def __init__(self, pcode: str, start: bool = True, dt: float = 0.125):
+    def __init__(self, pcode: str, start: bool = True, dt: float = 0.125, uod_extra=None):
         from openpectus.engine.engine import Engine, EngineTiming
         from openpectus.lang.exec.clock import WallClock
         from openpectus.lang.exec.timer import NullTimer
@@ -73,7 +76,7 @@ class EngineRun:
         self.clock = Clock()
         self.clock.install()
         self.exec_log: list = []
-        self.uod = make_uod(self.exec_log)
+        self.uod = make_uod(self.exec_log, extra=uod_extra)
         self.engine = Engine(self.uod, EngineTiming(WallClock(), NullTimer(), dt, 1.0))
         self.engine.run(skip_timer_start=True)
         self.engine.set_method(Mdl.Method.from_pcode(pcode))
